@@ -74,6 +74,16 @@ def check_image_only(name, kw, case, viol):
             viol.append({'site': 'C12:%s:raises-with-channels' % name, 'kind': 'image_only', 'name': name, 'kw': kw, 'case': case,
                          'observed': '%s: %s' % (type(e).__name__, str(e)[:160]),
                          'expected': 'an image with %d channel(s): the same configuration runs without the channel axis' % ch})
+            return
+        # ... and one that runs on a cubic volume and raises on a non-cubic one does not return "the same spatial shape"
+        if len(set(case['shape'])) > 1:
+            try:
+                run_image_only(name, kw, dict(case, shape=[8, 8, 8]), None)
+            except Exception:  # noqa
+                return
+            viol.append({'site': 'C12:%s:raises-on-non-cubic' % name, 'kind': 'image_only', 'name': name, 'kw': kw, 'case': case,
+                         'observed': '%s: %s' % (type(e).__name__, str(e)[:160]),
+                         'expected': 'an image of shape %s: the same configuration runs on an 8 x 8 x 8 volume' % (case['shape'],)})
         return
     for k in ('mask', 'masks', 'bboxes', 'keypoints', 'labels', 'dicom', 'mask2'):
         if not same(res[k], ref[k]):
